@@ -110,6 +110,15 @@ var guardTargets = []target{
 		},
 		Locals: []string{"lastIndex"},
 		Fields: []string{"Timeslot", "Energy"}},
+	{Name: "Gen.SendLoop", Tags: "test", Pkg: "client", Func: "Client.threadedSendReports",
+		Leaves: map[string]leaf{
+			"ticks":                           {"ticks", bv(64)},
+			"atomic.LoadUint64(&syncStatus)": {"st", bv(64)},
+			"record.Timeslot":                 {"ts", bv(32)},
+			"latestRecord":                    {"latest", bv(32)},
+			"err != nil":                      {"errB", "Bool"},
+			"err == nil":                      {"okB", "Bool"},
+		}},
 	{Name: "Gen.RateAllow", Tags: "", Pkg: "glow", Func: "RateLimiter.Allow",
 		Leaves: map[string]leaf{
 			"time.Now()":  {"now", bv(64)},
